@@ -4,8 +4,11 @@ Exit 0 iff every stable_pass test passes."""
 import json, subprocess, sys, tempfile, os, xml.etree.ElementTree as ET
 B = json.load(open("/root/.vp/BASELINE.json"))
 fd, path = tempfile.mkstemp(suffix=".junit.xml", dir="/var/tmp"); os.close(fd)
-cmd = B["cmd"].replace("<file>", path)
+repo = sys.argv[1] if len(sys.argv) > 1 else "/repo"
+cmd = B["cmd"].replace("<file>", path).replace("cd /repo", "cd " + repo)
 env = dict(os.environ); env.pop("PYCOIN_VERIF", None)
+if repo != "/repo":
+    env["PYTHONPATH"] = repo
 p = subprocess.run(cmd, shell=True, stdout=subprocess.PIPE, stderr=subprocess.STDOUT, env=env)
 passed = set()
 try:
